@@ -5,7 +5,21 @@
    * zone_ok / exact_ok: the purely integer condition "no exact position lies in [2^22, 2^33)" (float)
      on the responsible segments; float_ok_of_exact : exact_ok -> float_ok;
    * double slopes: the two zones overlap, so float_ok holds for EVERY key (float_ok_double);
-   * float slopes: see the end of the file for what holds and what does not. *)
+   * float slopes: float_ok_of_small_partial (EpsilonRecursive = 0, k a key of the data, n + eps + 1 <= 2^22),
+     float_ok_bottom_small (any EpsilonRecursive: bottom level discharged, upper levels keep their integer
+     zone condition), float_ok_of_small_span ((n + 2*eps) * (sentinel - first key) < 2^22, every k);
+   * NOT a theorem: "zlen data < 2^21 -> float_ok c data k for hd data <= k < sentinel" (float slopes).
+     cx_not_float_ok (6 keys, k absent, EpsilonRecursive = 0) and cy_not_float_ok (21 keys, k IN the data,
+     EpsilonRecursive = 1) refute it: between the last point of a segment's block and the next segment's
+     key the exact line value is unbounded (the next point was rejected precisely because it is far from
+     the line), so it can fall in [2^22, 2^32) where the float product is off by more than 1/2 and still
+     below 2^32 -- neither disjunct of eval_ok.  The real index is protected there by
+     min(pos, next intercept); `eval_ok` has no disjunct for "inexact but above the cap".
+     The float case is closed in FloatOkCap.v: the search proofs consume only the weaker
+     IdxChain.float_ok_cap (IdxBlock.eval_ok_cap: one more disjunct "computed and exact value both
+     >= level size + eps", i.e. above every intercept the value is capped with), which holds for
+     float slopes for every key as soon as level size + eps <= 2^22 - 1 (float_ok_cap_float);
+     ComposeFloat32.index_contract_float is the resulting unconditional contract. *)
 Require Import Base Fp PlaModel PlaSpec PlaCert Greedy PlaComplete PlaSound GenLeaf IndexModel IndexProofs
   MappedQueries IdxFed IdxSeg IdxBlock IdxLevel IdxSearch0 IdxRoute IdxChain IdxMain IdxFuel
   FloatOk FloatOkFar.
@@ -221,19 +235,19 @@ Proof.
 Qed.
 
 Section Chain.
-  Variables (c : cfg) (ldk k h0 M : Z) (L : list Z -> Prop).
+  Variables (c : cfg) (ldk k h0 M : Z) (L P : list Z -> Prop).
+  Hypothesis HP : forall keys, P keys -> level_float_ok_cap c (c_epsrec c) keys ldk k.
   Hypothesis Hb : 1 <= kbits (c_kt c).
   Hypothesis Hpar : 1 <= c_par c <= 20.
   Hypothesis He0 : 0 <= c_epsrec c.
   Hypothesis HM : M + c_epsrec c + 2 < 2 ^ 64 - 1.
   Hypothesis HL : forall keys, keys <> [] -> ssortedb keys = true -> Forall (key_ok (c_kt c)) keys ->
-    hd 0 keys = h0 -> zlen keys <= M -> L keys -> level_float_ok c (c_epsrec c) keys ldk k.
+    hd 0 keys = h0 -> zlen keys <= M -> L keys -> P keys.
 
   Lemma upper_chain_gen : forall fuel rl r,
     chainR c ldk k (r :: rl) -> hd 0 (lr_keys r) = h0 -> lr_ln r <= M ->
     upper_all L c fuel ldk (below (r :: rl)) (offs_of (r :: rl)) (lr_ln r) ->
-    upper_all (fun keys => level_float_ok c (c_epsrec c) keys ldk k) c fuel ldk
-              (below (r :: rl)) (offs_of (r :: rl)) (lr_ln r).
+    upper_all P c fuel ldk (below (r :: rl)) (offs_of (r :: rl)) (lr_ln r).
   Proof.
     induction fuel as [|f IH]; intros rl r Hch Hh HlnM H; cbn [upper_all] in *; [exact H|].
     destruct ((c_epsrec c =? 0) || (lr_ln r <=? 1)) eqn:Ec; [exact I|].
@@ -249,11 +263,11 @@ Section Chain.
     apply orb_false_iff in Ec. destruct Ec as [Ec1 Ec2].
     set (keys' := map sg_key (firstn (Z.to_nat (lr_ln r)) (lr_L r))) in *.
     assert (Hne' : keys' <> []) by (intros E; rewrite E in Hz; change (zlen (@nil Z)) with 0 in Hz; lia).
-    assert (Hfl : level_float_ok c (c_epsrec c) keys' ldk k).
+    assert (Hfl : P keys').
     { apply HL; try assumption; [rewrite Hhd by lia; exact Hh | lia]. }
     split; [exact Hfl|].
     destruct (build_level c (c_epsrec c) keys' (lr_ln r) ldk (below (r :: rl))) as [[segs1 ln1]|e1] eqn:E; [|exact I].
-    destruct (build_upper_step c ldk k r rl segs1 ln1 Hb ltac:(lia) He0 Hok ltac:(lia) ltac:(lia) Hfl E)
+    destruct (build_upper_step c ldk k r rl segs1 ln1 Hb ltac:(lia) He0 Hok ltac:(lia) ltac:(lia) (HP _ Hfl) E)
       as (r' & Hok' & Hlink & Es1 & Eln1).
     assert (Hshr : ln1 < lr_ln r).
     { rewrite <- Hz in E. rewrite <- Hz.
@@ -303,8 +317,8 @@ Proof.
   destruct (build_level_desc _ _ _ _ _ _ _ E2 ltac:(lia) Hne Hs Hw Hn64)
     as (css & fed & cnt & g & new & T & M1 & M2 & Es & Hcat & F1 & F2 & He & Htail).
   cbn [app] in Es, Htail.
-  destruct (HL0 css fed cnt new M1 M2) as [Fev _].
-  pose proof (Lv_of_Forall2 c (c_eps c) (EvalOK c k) css g new F1 F2 Fev) as HLv.
+  destruct (level_float_ok_cap_of _ _ _ _ _ HL0 css fed cnt new M1 M2) as [Fev _].
+  pose proof (Lv_of_Forall2 c (c_eps c) (EvalOKc (zlen data + c_eps c) c k) css g new F1 F2 Fev) as HLv.
   set (r0 := mkL data (c_eps c) css g new T ln).
   assert (Hok0 : lrec_ok c (last_z data) k r0).
   { unfold lrec_ok, r0. cbn [lr_keys lr_eps lr_css lr_g lr_new lr_T lr_ln]. do 6 (split; [assumption|]). exact Htail. }
@@ -313,7 +327,7 @@ Proof.
   assert (Eo : offs_of [r0] = [0; zlen segs]) by (cbn [offs_of app]; rewrite Eb; reflexivity).
   rewrite <- Eo in HU |- *. rewrite <- Eb in HU |- *. change ln with (lr_ln r0) in HU |- *.
   apply upper_all_float.
-  apply (upper_chain_gen c (last_z data) k (hd 0 data) (zlen data + 1) L Hb Hpar He0 ltac:(lia) HL);
+  apply (upper_chain_gen c (last_z data) k (hd 0 data) (zlen data + 1) L _ (fun keys => level_float_ok_cap_of c (c_epsrec c) keys (last_z data) k) Hb Hpar He0 ltac:(lia) HL);
     [cbn [chainR]; split; [exact Hok0 | reflexivity] | reflexivity | | exact HU].
   destruct (Lv_keys _ _ _ _ _ _ HLv) as [_ Hgne]. destruct (Lv_len _ _ _ _ _ _ HLv) as [Lg _].
   pose proof (zlen_concat_ge g Hgne) as Hg. rewrite Hcat in Hg.
@@ -624,3 +638,100 @@ Proof.
   split; [repeat constructor|]. split; [vm_compute; reflexivity|]. split; [reflexivity|].
   vm_compute. split; discriminate.
 Qed.
+
+(* ---- second counterexample: EpsilonRecursive = 1, the query key IS a key of the data ----
+   21 keys, Epsilon = 0, EpsilonRecursive = 1, float slopes.  The bottom level has segments starting at
+   0, 3, 6, 9, 12 and 3221225485; the upper level fits the first five with exact slope 5/12.  The data
+   key 12 + 12*2^28 lies in the key range of that upper segment, beyond its last point: exact position
+   1342177285, float computation 1342177253.  So for EpsilonRecursive > 0 "n small and k in data" does
+   not give float_ok either: the upper levels need their zone condition (float_ok_bottom_small). *)
+Definition cy_c : cfg := mkCfg (mkK 64 false) 0 1 false 1 false.
+Definition cy_data : list Z := [0; 1; 3; 5; 6; 7; 9; 11] ++ map (fun j => 12 + j * 2 ^ 28) (zseq 0 13).
+Definition cy_k : Z := 12 + 12 * 2 ^ 28.
+Definition cy_keys1 : list Z := [0; 3; 6; 9; 12; 3221225485].
+Definition cy_css : list cseg :=
+  [mkCseg (0, 1) (0, 0) (12, 3) (12, 5) 0;
+   mkCseg (3221225485, 6) (3221225485, 4) (3221225486, 5) (3221225486, 7) 3221225485].
+Definition cy_fed : list (Z * Z) := [(0, 0); (3, 1); (6, 2); (9, 3); (12, 4); (3221225485, 5); (3221225486, 6)].
+Definition cy_new : list segment :=
+  match map_res (segment_of_cseg cy_c) cy_css with Ok new => new | Err _ => [] end.
+
+Lemma cy_l0_facts :
+  match build_level cy_c (c_eps cy_c) cy_data (zlen cy_data) (last_z cy_data) [] with
+  | Ok (segs, ln) =>
+      (ln =? 6) &&
+      (if list_eq_dec Z.eq_dec (map sg_key (firstn (Z.to_nat ln) (skipn (Z.to_nat 0) segs))) cy_keys1 then true else false)
+  | Err _ => false
+  end = true.
+Proof. vm_compute. reflexivity. Qed.
+
+Lemma cy_M1 : make_segmentation_par (c_kt cy_c) par_threshold (c_par cy_c) (zlen cy_keys1) (c_epsrec cy_c) cy_keys1
+              = Ok (cy_css, cy_fed, 2).
+Proof. vm_compute. reflexivity. Qed.
+Lemma cy_M2_ok : match map_res (segment_of_cseg cy_c) cy_css with Ok _ => true | Err _ => false end = true.
+Proof. vm_compute. reflexivity. Qed.
+Lemma cy_M2 : map_res (segment_of_cseg cy_c) cy_css = Ok cy_new.
+Proof.
+  pose proof cy_M2_ok as H. unfold cy_new. destruct (map_res (segment_of_cseg cy_c) cy_css); [reflexivity | discriminate H].
+Qed.
+Lemma cy_facts :
+  match cy_new with
+  | [s1; s2] => (sg_key s1 =? 0) && (sg_icpt s1 =? 0) && (seg_eval cy_c s1 cy_k =? 1342177253) && (sg_key s2 =? 3221225485)
+  | _ => false
+  end = true.
+Proof. vm_compute. reflexivity. Qed.
+
+Lemma upper_float_ok_S c f ldk segs offs ln k :
+  upper_float_ok c (S f) ldk segs offs ln k =
+  (if (c_epsrec c =? 0) || (ln <=? 1) then True else
+     let offset := nth (length offs - 2) offs 0 in
+     let keys := map sg_key (firstn (Z.to_nat ln) (skipn (Z.to_nat offset) segs)) in
+     level_float_ok c (c_epsrec c) keys ldk k /\
+     match build_level c (c_epsrec c) keys ln ldk segs with
+     | Ok (segs1, ln1) => upper_float_ok c f ldk segs1 (offs ++ [zlen segs1]) ln1 k
+     | Err _ => True
+     end).
+Proof. reflexivity. Qed.
+
+Theorem cy_not_float_ok : ~ float_ok cy_c cy_data cy_k.
+Proof.
+  intros [_ HU]. pose proof cy_l0_facts as HF0.
+  destruct (build_level cy_c (c_eps cy_c) cy_data (zlen cy_data) (last_z cy_data) []) as [[segs ln]|e]; [|discriminate HF0].
+  apply andb_prop in HF0. destruct HF0 as [Eln Ekeys]. apply Z.eqb_eq in Eln. subst ln.
+  destruct (list_eq_dec Z.eq_dec _ cy_keys1) as [Ek|]; [clear Ekeys|discriminate Ekeys].
+  change (length cy_data + 2)%nat with (S 22) in HU. rewrite upper_float_ok_S in HU.
+  change ((c_epsrec cy_c =? 0) || (6 <=? 1)) with false in HU. cbv iota zeta in HU.
+  change (nth (length [0; zlen segs] - 2) [0; zlen segs] 0) with 0 in HU.
+  rewrite Ek in HU. destruct HU as [H1 _].
+  change (c_epsrec cy_c) with 1 in H1.
+  destruct (H1 cy_css cy_fed 2 cy_new cy_M1 cy_M2) as [HE _]. clear H1.
+  pose proof cy_facts as HF. destruct cy_new as [|s1 [|s2 [|s3 t]]]; try discriminate HF.
+  apply andb_prop in HF. destruct HF as [HF K2]. apply andb_prop in HF. destruct HF as [HF V1].
+  apply andb_prop in HF. destruct HF as [K1 I1].
+  apply Z.eqb_eq in K1, I1, V1, K2.
+  unfold cy_css in HE. cbn [EvL] in HE. destruct HE as [HE _]. unfold EvalOK in HE.
+  change (slope_of _) with (12, 5) in HE. cbn [fst snd] in HE.
+  rewrite K1, K2 in HE. unfold cy_k in *.
+  specialize (HE ltac:(lia) ltac:(lia) ltac:(vm_compute; reflexivity)).
+  destruct HE as [(t & Et & Ht & [C1 C2])|[C1 _]]; rewrite V1, ?I1, ?K1 in *; lia.
+Qed.
+
+Lemma cy_structural :
+  std_width cy_c /\ 1 <= c_par cy_c <= 20 /\ c_epsrec cy_c = 1 /\ c_eps cy_c = 0 /\ c_fdouble cy_c = false /\
+  cy_data <> [] /\ sortedb cy_data = true /\ Forall (fun x => in_ktype (c_kt cy_c) x = true) cy_data /\
+  last_z cy_data < sentinel cy_c /\ zlen cy_data = 21 /\ In cy_k cy_data.
+Proof.
+  split; [right; right; right; reflexivity|].
+  split; [cbn; lia|]. split; [reflexivity|]. split; [reflexivity|]. split; [reflexivity|].
+  split; [discriminate|]. split; [vm_compute; reflexivity|].
+  split; [repeat constructor|]. split; [vm_compute; reflexivity|]. split; [reflexivity|].
+  vm_compute. do 20 right. left. reflexivity.
+Qed.
+
+Print Assumptions float_ok_of_exact.
+Print Assumptions float_ok_double.
+Print Assumptions float_ok_bottom_small.
+Print Assumptions float_ok_of_small_partial.
+Print Assumptions float_ok_of_small_span.
+Print Assumptions cx_not_float_ok.
+Print Assumptions cy_not_float_ok.
